@@ -29,6 +29,7 @@ import (
 const (
 	annResName = "crossplane.io/composition-resource-name"
 	maxQuiesce = 8
+	extraQuiet = 4 // reconciles after the first quiet one that must stay quiet
 )
 
 type resSpec struct {
@@ -40,6 +41,8 @@ type resSpec struct {
 	Version string `json:"version,omitempty"`
 	// FixedName: the function asks for this metadata.name (several kinds may share it)
 	FixedName string `json:"fixedName,omitempty"`
+	// Unready: the function reports the resource as not ready (forever)
+	Unready bool `json:"unready,omitempty"`
 }
 
 type phase struct {
@@ -77,8 +80,8 @@ func (s *scenario) markUnsteady() {
 				}
 			}
 		}
-		if _, ok := s.Phases[i].XREdit["param"]; ok {
-			have = true
+		if v, ok := s.Phases[i].XREdit["param"]; ok {
+			have = v != nil
 		}
 		s.Phases[i].Unsteady = needsParam && !have
 	}
@@ -184,6 +187,11 @@ func baseScenarios() []scenario {
 	return []scenario{
 		{Name: "pipe-same-name-three-kinds", Mode: "pipeline", Steps: 1, Phases: []phase{
 			{Desired: []resSpec{{Name: "a", Kind: "NopA", Val: "1", FixedName: "app"}, {Name: "c", Kind: "NopB", Val: "2", FixedName: "app"}, {Name: "e", Kind: "NopC", Val: "3", FixedName: "app"}, {Name: "f", Kind: "NopD", Val: "4", FixedName: "app"}}}}},
+		// six resources that never become ready: the XR's conditions (which name unready
+		// resources) must be a fixed point too
+		{Name: "pipe-six-unready", Mode: "pipeline", Steps: 1, Phases: []phase{{Desired: []resSpec{
+			{Name: "alpha", Kind: "NopA", Val: "1", Unready: true}, {Name: "bravo", Kind: "NopA", Val: "2", Unready: true}, {Name: "charlie", Kind: "NopB", Val: "3", Unready: true},
+			{Name: "delta", Kind: "NopB", Val: "4", Unready: true}, {Name: "echo", Kind: "NopA", Val: "5", Unready: true}, {Name: "foxtrot", Kind: "NopB", Val: "6", Unready: true}}}}},
 		{Name: "pipe-grow-lagging-cache", Mode: "pipeline", Steps: 1, Lag: 3, Phases: []phase{{Desired: []resSpec{a}}, {Desired: []resSpec{a, b, c}}}},
 		{Name: "pipe-return-lagging-cache", Mode: "pipeline", Steps: 1, Lag: 2, Phases: []phase{{Desired: []resSpec{a, b}}, {Desired: []resSpec{a}}, {Desired: []resSpec{a, b}}}},
 		{Name: "pt-fixed2-lagging-cache", Mode: "pt", Lag: 3, Templates: []map[string]any{ptTemplate("a", "NopA", "1", optPatch), ptTemplate("b", "NopB", "2", nil)},
@@ -210,6 +218,10 @@ func baseScenarios() []scenario {
 		{Name: "pipe-2step-ns", Mode: "pipeline", Steps: 2, Phases: []phase{{Desired: []resSpec{a, nsd}}, {Desired: []resSpec{a, nsd, b}}}},
 		{Name: "pt-fixed2", Mode: "pt", Templates: []map[string]any{ptTemplate("a", "NopA", "1", optPatch), ptTemplate("b", "NopB", "2", nil)},
 			Phases: []phase{{}, {XREdit: map[string]any{"size": int64(7)}}}},
+		// the source field of a Required patch is set, removed again by the user (the template of an
+		// EXISTING resource stops rendering), and set again
+		{Name: "pt-required-lost-and-restored", Mode: "pt", Templates: []map[string]any{ptTemplate("a", "NopA", "1", nil), ptTemplate("b", "NopA", "2", reqPatch), ptTemplate("c", "NopB", "3", optPatch)},
+			Phases: []phase{{XREdit: map[string]any{"param": "set"}}, {XREdit: map[string]any{"param": nil}}, {XREdit: map[string]any{"param": "set-again"}}}},
 		{Name: "pt-required-missing", Mode: "pt", Templates: []map[string]any{ptTemplate("a", "NopA", "1", nil), ptTemplate("b", "NopA", "2", reqPatch), ptTemplate("c", "NopB", "3", optPatch)},
 			Phases: []phase{{}, {XREdit: map[string]any{"param": "now-set"}}}},
 	}
@@ -328,6 +340,9 @@ func (r *runner) install(sc *scenario) {
 					return nil, err
 				}
 				d.Resources[rs.Name] = &fnv1.Resource{Resource: s, Ready: fnv1.Ready_READY_TRUE}
+				if rs.Unready {
+					d.Resources[rs.Name].Ready = fnv1.Ready_READY_FALSE
+				}
 			}
 			return &fnv1.RunFunctionResponse{Desired: d}, nil
 		})
@@ -380,6 +395,10 @@ func (r *runner) enterPhase(w *sim.World, sc *scenario, p int) {
 		u := w.Client("user")
 		xr := &unstructured.Unstructured{Object: w.GetObj(xrKey)}
 		for k, v := range ed {
+			if v == nil {
+				unstructured.RemoveNestedField(xr.Object, "spec", k) // nil = the user removes the field
+				continue
+			}
 			_ = unstructured.SetNestedField(xr.Object, v, "spec", k)
 		}
 		if err := u.Update(nil, xr); err != nil { //nolint:staticcheck // ctx unused
@@ -578,6 +597,20 @@ func (r *runner) runScenario(sc scenario, scIdx int, quickFull bool) {
 					}
 				}
 				if !changed && err == nil {
+					// quiescent: "reconciling again changes no object" - a few more times
+					for j := 0; j < extraQuiet && !sc.Provider; j++ {
+						from := w.LogLen()
+						_, err, _ := env.Reconcile("xr1")
+						for _, e := range w.Log(from) {
+							if e.Changed {
+								m.add("I4-change-after-quiescence", fmt.Sprintf("fault-free: phase %d was quiescent, yet reconcile +%d changed the store: %s", p, j+1, e.Short()))
+							}
+						}
+						if err != nil {
+							m.add("I4-change-after-quiescence", fmt.Sprintf("fault-free: phase %d was quiescent, yet reconcile +%d failed: %v", p, j+1, err))
+						}
+						r.c.Count("reconciles_after_quiescence", 1)
+					}
 					break
 				}
 				if i == maxQuiesce-1 && !sc.Phases[p].Unsteady {
